@@ -20,6 +20,7 @@ import (
 // Session is one client connection to the proxy with header-level control on
 // both protocols: raw text on HTTP/1.1, raw frames (independent Framer) on HTTP/2.
 type Session struct {
+	Scheme string // HTTP/2 :scheme pseudo-header ("" = https)
 	Proto   string
 	TLS     *tls.Conn
 	Rec     *RecConn
@@ -86,7 +87,11 @@ func (s *Session) Do(method, path, host string, headers [][2]string, body []byte
 	if s.Proto == "h2" {
 		id := s.nextID
 		s.nextID += 2
-		f := []hpack.HeaderField{{Name: ":method", Value: method}, {Name: ":scheme", Value: "https"}, {Name: ":authority", Value: host}, {Name: ":path", Value: path}}
+		scheme := "https"
+		if s.Scheme != "" {
+			scheme = s.Scheme
+		}
+		f := []hpack.HeaderField{{Name: ":method", Value: method}, {Name: ":scheme", Value: scheme}, {Name: ":authority", Value: host}, {Name: ":path", Value: path}}
 		for _, h := range headers {
 			f = append(f, hpack.HeaderField{Name: h[0], Value: h[1]})
 		}
